@@ -413,6 +413,33 @@ pub fn emit_unit(db: &Db, contracts: &serde_json::Value, unit: &str) -> UnitOut 
         }
         let end_line = exec.lines().count();
         mirror.push_str(&emit_mirror(f, m));
+        // contract variants: the same verbatim body checked under a different (wider / special-point) domain
+        if !f.is_std_op() && f.trait_.as_deref() != Some("Clone") {
+            if let Some(vars) = contracts["variants"][f.name.as_str()].as_array() {
+                for v in vars {
+                    let suffix = v["suffix"].as_str().unwrap_or("v");
+                    let order = contracts["order"][f.ty.as_str()].as_i64().unwrap_or(0);
+                    let p1 = ps.get(1).map(|p| p.name.clone()).unwrap_or_default();
+                    let vreqs: Vec<String> = v["requires"].as_array().map(|a| a.iter().filter_map(|r| r.as_str()).map(|r| r.replace("{0}", "self").replace("{1}", &p1).replace("{order}", &order.to_string())).collect()).unwrap_or_default();
+                    let req_txt = if vreqs.is_empty() { String::new() } else { format!(" requires {}", vreqs.join(", ")) };
+                    let vstart = exec.lines().count() + 1;
+                    exec.push_str(&format!("// @fn {}#{} [expanded.rs:{}-{}]\n", f.id(), suffix, f.line, f.end_line));
+                    exec.push_str(&format!(
+                        "impl {} {{ pub fn {fn_name}__{suffix}({}){ret_decl}{req_txt}{ens_txt}\n{body} }}\n",
+                        f.ty,
+                        sig_params.join(", ")
+                    ));
+                    let vend = exec.lines().count();
+                    meta_fns.push(json!({
+                        "id": format!("{}#{}", f.id(), suffix), "ty": f.ty, "trait": f.trait_, "name": f.name, "variant": suffix,
+                        "mname": format!("{}#{}", f.mname, suffix), "self_ref": f.self_ref, "rhs": format!("{:?}", f.rhs),
+                        "src_line": f.line, "src_end_line": f.end_line, "gen_line": vstart, "gen_end_line": vend,
+                        "params": [], "outs": [], "requires": vreqs, "mutates_self": m.mutates_self, "from_default": f.from_default, "rewrites": {},
+                        "props": v["props"].clone(), "what": v["what"].clone(),
+                    }));
+                }
+            }
+        }
         for (k, v) in &rw.counts {
             *rule_counts.entry(k.to_string()).or_insert(0) += v;
         }
